@@ -22,7 +22,7 @@ contract(
              "spec.env.frame_kinds(t.sent) == ['register']", "spec.encap.try_parse_frame(t.sent[0])[1] == 0"],
     raises_only=["pycomm3.exceptions.CommError"], ensures_exc=["fail_at is not None", "not d._target_is_connected", "d._session == 0",
                                                                  "'connected' not in spec.env.frame_kinds(t.sent)"],
-    props=["C10"])
+    props=["C10", "C11"])
 contract(
     id="lifecycle.open.again", func=D + ".open", call="d.open()", params={"session": P.int(1, 0xFFFFFFFF)},
     setup=["replies = []", "fail_at = None"] + SETUP + ["d._sock = t", "d._connection_opened = True", "d._session = session"],
@@ -68,7 +68,7 @@ for _state, _init, _kinds in (
         setup=["replies = [spec.env.forward_close_reply(fc_status)]"] + SETUP + _init,
         ensures=[CLOSED, f"spec.env.frame_kinds(t.sent) == {_kinds}", "all(spec.encap.try_parse_frame(f)[1] == session for f in t.sent)"],
         raises_only=["pycomm3.exceptions.CommError"], ensures_exc=[CLOSED, "fail_at is not None"],
-        props=["C10"], max_paths=20000)
+        props=["C10", "C11"], max_paths=20000)     # C11: the session handle is zero again after close, so a re-open registers anew
 
 # ---- context manager: __exit__ always closes and never swallows the body's exception
 for _exc in ("None", "ValueError"):
